@@ -218,6 +218,7 @@ type diffSpec struct {
 	// classify returns whether the case is non-trivial and its classes
 	nontrivial func(p *Program, r *Record) bool
 	// ownsCompile: compile/build failures are violations of this property (C11); otherwise casualties
+	ownsCompileFor func(p *Program) bool // compile/build failures of these programs are violations of this property
 	ownsCompile bool
 	// extra per-batch check (e.g. text comparisons); may add violations
 	perBatch func(rs *runState, b *batch, res *batchResult)
@@ -535,7 +536,7 @@ func (rs *runState) runDiff(spec *diffSpec) {
 						if spec.onCompileFail != nil && spec.onCompileFail(rs, p, res.fail, b) {
 							return
 						}
-						if spec.ownsCompile {
+						if spec.ownsCompile || (spec.ownsCompileFor != nil && spec.ownsCompileFor(p)) {
 							rs.eval(progHash(p)+"compile", true, p.Tags...)
 							rs.addViolation(&violationT{Kind: strings.SplitN(res.fail.Stage, "-", 2)[0], Signature: sig, What: fmt.Sprintf("%s: %s failed: %s", p.Name, res.fail.Stage, normDiag(res.fail.Diag)),
 								Program: p, Stage: res.fail, SourceS: b.srcS, Output: res.outO, Style: j.db.style, NeedU: opts.needU})
